@@ -2242,6 +2242,10 @@ impl<'a, S: RowSource> Executor<'a> for DynamicExecutor<'a, S> {
                     let sort_keys = &state.sort_keys;
 
                     while let Some(row) = state.child.next()? {
+                        if heap_size == 0 {
+                            // LIMIT 0: nothing can be kept (and heap[0] below does not exist)
+                            break;
+                        }
                         let owned: Vec<Value<'static>> =
                             row.values.iter().map(clone_value_owned).collect();
 
